@@ -6,8 +6,8 @@
    encoder of the FRU Information Storage Definition). *)
 From Coq Require Import String.
 From Coq Require Import NArith List.
-From PyIpmi Require Import Lib.Res Lib.Bytes Gen.FruTables Model.FruParse Model.FruSpec
-  Proofs.FruParseProofs Proofs.FruChecksumProofs Proofs.FruEncBytesProofs.
+From PyIpmi Require Import Lib.Res Lib.Bytes Lib.Prog Gen.FruTables Model.FruIO Model.FruParse Model.FruSpec
+  Model.FruDevice Proofs.FruParseProofs Proofs.FruChecksumProofs Proofs.FruEncBytesProofs Proofs.FruDeviceProofs.
 Import ListNotations.
 Open Scope N_scope.
 
@@ -81,6 +81,45 @@ Theorem C15_alteration_rejected : forall img inv i b,
 Proof. exact alteration_rejected. Qed.
 Print Assumptions C15_alteration_rejected.
 
+(* "Whether the image comes from a file or is read from a device" (C15 x C10).
+   device_inventory = C10's model of Fru.get_fru_inventory (Model/FruIO.v: header read five
+   times, _read_fru_area, the multi-record header scan, read_fru_data with its back-off)
+   instantiated with the real area classes of Model/FruParse.v (Model/FruDevice.v).
+   Hypotheses: the C10 reference device fru_dev in ANY state s with read limit >= 2 and a
+   rejection code on which read_fru_data backs off (0xC8/0xC9/0xCA); fru id < 256; the memory of
+   that id is the image of a well-formed inventory followed by ANY trailing bytes, at most 65535
+   bytes in all; fuel (a model bound on the record-header scan) >= the number of records.
+   Then the device path returns exactly the four areas of the encoded inventory - the same
+   value parse_inventory (= FruInventory(image) / get_fru_inventory_from_file) gives on the
+   memory -, the device state is unchanged, and every request names that fru id. *)
+Theorem C15_device_reads_encoded : forall (s : frudev) (id : N),
+  id < 256 -> 2 <= fd_limit s -> is_backoff_cc (fd_rej s) = true -> len (fd_mem s id) <= 65535 ->
+  forall s0 tail fuel, wf_inv s0 = true -> fd_mem s id = enc_inventory s0 ++ tail -> (length (s_multi s0) <= fuel)%nat ->
+  exists tr,
+    run (device_inventory fuel id) fru_dev s [] = (Ok (areas_of (view_inventory s0)), s, tr) /\
+    Forall (fun x => req_fru_id (fst x) = Some id) tr /\
+    parse_inventory (fd_mem s id) = Ok (Some (view_inventory s0)).
+Proof. exact device_reads_encoded. Qed.
+Print Assumptions C15_device_reads_encoded.
+
+(* The stronger "for EVERY memory the device path and parse_inventory agree" is false of the
+   code and therefore not stated: the device path hands each area class exactly the area's
+   bytes and turns a read past the end into the device's completion code, FruInventory(image)
+   hands them the rest of the image and slices silently.  Witness (truncated image: the header
+   names a chassis area where the image ends): attribute-less chassis object vs. CCError 0xC9.
+   Truncated images are outside C15's domain (design.d/C15.md, observations). *)
+Theorem C15_device_differs_on_truncated_image :
+  (exists inv, parse_inventory (fd_mem truncated_dev 0) = Ok (Some inv) /\ i_chassis inv = Shell) /\
+  fst (fst (run (device_inventory 1 0) fru_dev truncated_dev [])) = Err (CCError 0xc9).
+Proof. exact device_differs_on_truncated. Qed.
+Print Assumptions C15_device_differs_on_truncated_image.
+
+(* trailing bytes after the image do not matter for the file path either *)
+Theorem C15_parse_enc_tail_except_known : forall s tail, wf_inv s = true ->
+  parse_inventory (enc_inventory s ++ tail) = Ok (Some (view_inventory s)).
+Proof. exact parse_enc_tail. Qed.
+Print Assumptions C15_parse_enc_tail_except_known.
+
 (* the two loops of the model never run out of their fuel *)
 Theorem C15_no_out_of_fuel : forall img, parse_inventory img <> Err OutOfFuel.
 Proof. exact parse_inventory_fuel. Qed.
@@ -100,3 +139,11 @@ Example C15_wf_somewhere :
   parse_inventory (enc_inventory s) = Ok (Some (view_inventory s)) /\
   covered (view_inventory s) 3 /\ covered (view_inventory s) 18 /\ covered (view_inventory s) 95.
 Proof. exact example_nonvacuous. Qed.
+
+(* non-vacuity of C15_device_reads_encoded: read limit 2, rejection code 0xC8, the inventory
+   above stored as FRU 3 and followed by erased bytes *)
+Example C15_device_somewhere :
+  3 < 256 /\ 2 <= fd_limit example_dev /\ is_backoff_cc (fd_rej example_dev) = true /\
+  wf_inv example_inv = true /\ len (fd_mem example_dev 3) <= 65535 /\
+  fst (fst (run (device_inventory 2 3) fru_dev example_dev [])) = Ok (areas_of (view_inventory example_inv)).
+Proof. exact device_example. Qed.
